@@ -344,3 +344,60 @@ Proof.
     apply Z.ltb_lt in X1, X2. destruct (B kb I) as (x & Ix & S1 & S2). pose proof (pairwise_mid _ _ _ _ P Ix) as D.
     unfold obj_disjoint in D. lia.
 Qed.
+
+(* ---- one step of the combined machine: a span taken from the span layer is never refused ----
+   coupling: every span the heap owns is one of the OTHER span objects (1 span for a class span, big_units
+   for a large/huge block).  Under it, and when the span object has the shape the request needs, the
+   model's heap_allocate does not answer CErrOracle: the environment assumption of the heap-level
+   theorems is discharged for spans that come out of ProofsSpans.v's machine. *)
+Definition coupled (psh : Z) (h : heap) (others : list sobj) : Prop :=
+  (forall c cs s v, In (c, cs) (h_classes h) -> In (s, v) (c_spans cs) ->
+     exists x, In x others /\ so_start x = s /\ so_count x = 1) /\
+  (forall kb, In kb (h_big h) -> exists x, In x others /\ so_start x = fst kb /\ so_count x = big_units psh (snd kb)).
+
+Theorem heap_allocate_not_refused : forall psh h ss l1 o l2 size,
+  pairwise obj_disjoint (objs ss) -> objs ss = l1 ++ o :: l2 -> coupled psh h (l1 ++ l2) ->
+  (* the span object fits the request: one span for a class, at least the needed count for a large block,
+     exactly the mapped units for a huge block *)
+  match regime_of size with
+  | Small | Medium => so_count o = 1
+  | Large => large_span_count size <= so_count o <= LARGE_CLASS_COUNT
+  | Huge => match huge_request psh size with Some np => so_count o = big_units psh (BHuge np) | None => True end
+  end ->
+  heap_allocate psh h size (so_start o) (so_count o) <> CErrOracle.
+Proof.
+  intros psh h ss l1 o l2 size P E (C1 & C2) Shape.
+  assert (R : range_in_use psh h (so_start o) (so_count o) = false)
+    by (eapply span_layer_supplies_accepted_span; eassumption).
+  unfold heap_allocate.
+  assert (SM : forall c, so_count o = 1 ->
+    match class_alloc (class_bc c) (chunk_of psh (class_bs c) (class_bc c)) (cl_lookup c (h_classes h)) (so_start o) with
+    | COk (cs', (s0, i), usedfresh) =>
+        if usedfresh && range_in_use psh h (so_start o) 1 then CErrOracle
+        else COk (mk_heap (cl_update c cs' (h_classes h)) (h_big h), s0, block_offset (class_bs c) i, class_bs c)
+    | CErrOracle => CErrOracle | CErrCorrupt => CErrCorrupt
+    | CErrBadFree => CErrBadFree | CErrUnmodelled => CErrUnmodelled | CNull => CNull
+    end <> CErrOracle).
+  { intros c One. rewrite One in R.
+    destruct (class_alloc (class_bc c) (chunk_of psh (class_bs c) (class_bc c)) (cl_lookup c (h_classes h)) (so_start o))
+      as [[[cs' [s0 i]] uf]| | | | |] eqn:A; try discriminate.
+    - rewrite R. rewrite andb_false_r. discriminate.
+    - (* the class machine itself refuses only a span it already owns: impossible under the coupling *)
+      exfalso. unfold class_alloc in A.
+      destruct (c_hfl (cl_lookup c (h_classes h))); [|discriminate].
+      destruct (c_partial (cl_lookup c (h_classes h))) as [|p pr].
+      + destruct (sp_lookup (so_start o) (c_spans (cl_lookup c (h_classes h)))) as [v|] eqn:L; [|discriminate].
+        assert (In (c, cl_lookup c (h_classes h)) (h_classes h)) by (eapply cl_lookup_in; rewrite L; discriminate).
+        apply sp_lookup_in in L. destruct (C1 _ _ _ _ H L) as (x & Ix & S1 & S2).
+        rewrite E in P. pose proof (pairwise_mid _ _ _ _ P Ix) as D. unfold obj_disjoint in D. lia.
+      + destruct (sp_lookup p (c_spans (cl_lookup c (h_classes h)))) as [st|]; [|discriminate].
+        destruct (sp_free st); discriminate. }
+  destruct (regime_of size).
+  - apply SM. assumption.
+  - apply SM. assumption.
+  - destruct Shape as [S1 S2].
+    replace (so_count o <? large_span_count size) with false by (symmetry; apply Z.ltb_ge; lia).
+    replace (LARGE_CLASS_COUNT <? so_count o) with false by (symmetry; apply Z.ltb_ge; lia).
+    rewrite R. simpl. discriminate.
+  - destruct (huge_request psh size) as [np|]; [|discriminate]. rewrite <- Shape. rewrite R. discriminate.
+Qed.
